@@ -36,10 +36,15 @@ CHECKS = {
         rule=("rapid-generated arm/stop/advance sequences (durations 1 ns .. 120 s, advances placed at d-1, d, d+1, stop directly after arm "
               "without yielding) on a real server-role connection in 'pending listen' on the synctest virtual clock; oracle = reference model "
               "'at most one live timer: the last armed and not stopped', observed timeouts (one prolongation frame each) must equal the "
-              "modelled instants. non-trivial = a stop or re-arm while a timer is armed; distinct = hash of the op sequence"),
+              "modelled instants. non-trivial = a stop or re-arm while a timer is armed; distinct = hash of the op sequence. "
+              "TestC14Real: in real time, rounds of 1-4 timers (40-90 ms) armed by concurrent goroutines released together, with a stop "
+              "alongside or after them; oracle = at most one timeout per round, none after a stop that followed the arm calls (rounds whose "
+              "calls had not returned 10 ms before the shortest timer was due are inconclusive); non-trivial = a round with >= 2 concurrent arms"),
         runs=[
             dict(engine="shipsim", test="TestC14", quick=dict(checks=30000, shards=4, timeout=600),
                  thorough=dict(checks=1000000, shards=16, timeout=3000)),
+            dict(engine="shipsim", test="TestC14Real", shrinktime="10s", quick=dict(checks=40, shards=2, timeout=600),
+                 thorough=dict(checks=1500, shards=4, timeout=3000)),
         ],
         assumptions=["timeouts are observed through their effect in the pending-listen state (one prolongation request frame per timeout)"],
     ),
